@@ -424,6 +424,7 @@ class Interp:
         self.depth = 0
         self.max_depth = max_depth
         self.steps = 0
+        self.max_steps = 20000
         self.yield_stack = []
 
     # -- integer reasoning -------------------------------------------------
@@ -501,7 +502,7 @@ class Interp:
 
     def exec_stmt(self, st, env):
         self.steps += 1
-        if self.steps > 20000:
+        if self.steps > self.max_steps:
             raise Unsupported(st, "step budget exceeded")
         if isinstance(st, ast.Expr):
             if isinstance(st.value, ast.Constant):
@@ -582,7 +583,8 @@ class Interp:
             for a in st.names:
                 nm = (a.asname or a.name).split(".")[0]
                 r = self.w.resolve_name(self, a.name, st)
-                env[nm] = r if r is not None else Opaque("module:" + a.name)
+                dotted = "%s.%s" % (st.module, a.name) if isinstance(st, ast.ImportFrom) and st.module and st.level == 0 else a.name
+                env[nm] = r if r is not None else Opaque("module:" + dotted)
         else:
             raise Unsupported(st, "statement kind %s" % type(st).__name__)
 
@@ -1387,6 +1389,11 @@ class Interp:
             return RepeatV(args[0])
         if fname == "count" and len(args) <= 1 and not kwargs:
             return None
+        if fname == "islice" and len(args) == 2 and isinstance(args[0], IterV) and isinstance(args[1], Const) and isinstance(args[1].v, int) \
+                and not isinstance(args[1].v, bool) and args[1].v >= 0 and not kwargs:
+            taken = args[0].items[args[0].pos:args[0].pos + args[1].v]       # islice consumes only what it hands out
+            args[0].pos += len(taken)
+            return IterV(taken)
         seqs = [self._seq(a, node) for a in args]
         if fname == "product" and set(kwargs) <= {"repeat"} and all(q is not None for q in seqs):
             rep = kwargs.get("repeat", Const(1))
